@@ -252,6 +252,7 @@ struct Cfg
   double tolsigma = 5., tolstop = 1e-6, epsdelta = 1e-5, initdelta = 1.;
   std::vector<ConsSpec> cons;
   double constSill = TEST;
+  std::vector<double> constSills; // per-variable totals (Constraints::setConstantSills), empty = none
   std::string consClass = "none";
   bool contradictory = false;
   // classes of requests that the library documents (messerr) as rejected
@@ -970,12 +971,15 @@ static void validateModel(KCtx c, const Cfg& g, Model* m, const std::string& ep,
       for (int k = 0; k < ncov; k++) tot += m->getCova(k)->getSill(iv, iv);
       // the sills solve a constrained least-squares system whose right-hand side has the magnitude of the
       // experimental values (gmax): absolute accuracy cannot be better than a multiple of eps * gmax
-      double tol = 1e-6 * g.constSill + 1e4 * EPS * gmax;
-      double err = std::fabs(tot - g.constSill);
+      // Constraints.hpp: "_constantSills: Vector of constant Sills (expanded to the number of variables)": a total given for a
+      // variable is the one that applies to it, the scalar fills the variables without one
+      double wantTot = iv < (int)g.constSills.size() ? g.constSills[iv] : g.constSill;
+      double tol = 1e-6 * wantTot + 1e4 * EPS * gmax;
+      double err = std::fabs(tot - wantTot);
       if (!std::isfinite(tot)) err = INFINITY;
       bool reduced = !g.noreduce && ncov < (int)g.types.size();
       c.check("cons-constsill", reduced ? std::string(K_CSREDUCE) : std::string("C17:cons:constant-sill:violated"), err <= tol, err, tol,
-              fmt("variable %d total sill %.10g, requested %.10g", iv, tot, g.constSill));
+              fmt("variable %d total sill %.10g, requested %.10g", iv, tot, wantTot));
     }
   }
 
@@ -1016,6 +1020,31 @@ static void validateModel(KCtx c, const Cfg& g, Model* m, const std::string& ep,
       }
     }
     c.truth("opt-iso2d", K_ISO2D, ok, det);
+  }
+  // The same promise when the library switches the lock on by itself: in 3-D, with at most one direction in the horizontal
+  // plane, st_alter_model_optvar sets lock_iso2d ("if (n_2d <= 1) optvar.setLockIso2d(1)"): the returned structures are
+  // isotropic in the horizontal plane (own key: the user did not ask for it)
+  if (!g.lockIso2d && g.ndim == 3 && g.src != SRC_VMAP)
+  {
+    int n2d = 0;
+    for (int id = 0; id < g.ndir; id++)
+      if (std::fabs(g.codirs[id][2]) < 1e-12) n2d++;
+    if (n2d <= 1)
+    {
+      bool ok = true;
+      std::string det;
+      for (int k = 0; k < ncov; k++)
+      {
+        const CovAniso* cv = m->getCova(k);
+        if (cv->hasRange() == 0) continue;
+        if (std::fabs(cv->getRange(1) - cv->getRange(0)) > 1e-9 * std::fabs(cv->getRange(0)))
+        {
+          ok = false;
+          det += fmt("structure %d: %g vs %g; ", k, cv->getRange(0), cv->getRange(1));
+        }
+      }
+      c.truth("opt-auto-iso2d", "C17:opt:at-most-one-horizontal-direction:horizontal-ranges-differ", ok, det);
+    }
   }
   // "auth_rotation: When True, the inference looks for a possible rotation" => false: no rotation is inferred, hence
   // all structures carry one and the same (not fitted) rotation; when the first variogram direction is the X axis
@@ -1388,6 +1417,7 @@ static void fitAndCheck(Rng& r, KCtx c, Cfg& g, Vario* vario, DbGrid* dbmap, dou
   Constraints cons;
   for (auto& s : g.cons) cons.addItemFromParamId(s.elem, s.icov, s.iv1, s.iv2, s.type, s.value);
   if (!FFFF(g.constSill)) cons.setConstantSillValue(g.constSill);
+  if (!g.constSills.empty()) cons.setConstantSills(VectorDouble(g.constSills));
 
   std::string ep = g.src == SRC_VMAP ? "fitFromVMap" : (g.useCovIndices ? "fitFromCovIndices" : "fit");
   c.puts("entry", ep);
@@ -1489,7 +1519,7 @@ static void fitAndCheck(Rng& r, KCtx c, Cfg& g, Vario* vario, DbGrid* dbmap, dou
 // finding (reports/C17_open_findings.json), through the same fit-and-validate code as the random cases, so that every
 // open key is reached in every run of both tiers and the set of failing keys does not depend on VERIF_SEED.
 // ------------------------------------------------------------------------------------------------
-static const int NSCRIPT = 17;
+static const int NSCRIPT = 19;
 static void setDirs(Cfg& g, int ndir, double angref)
 {
   g.ndir = ndir;
@@ -1598,6 +1628,24 @@ static void scripted(int idx, Rng& rs, Ctx& c)
       g.consClass = "items";
       break;
     case 15: name = "stale-options-in-vmap-fit"; g.types = {ECov::NUGGET, ECov::SPHERICAL}; break;
+    case 17:
+      // control of D3 (repaired): the same request with the default iteration cap, i.e. the structure is discarded after a pass
+      // that CONVERGED; the bounds of the surviving structure must still hold
+      name = "control-bounds-after-converged-pass-and-reduction";
+      // (an exactly spherical variogram of range 20 fitted with {GAUSSIAN, SPHERICAL}: the Gaussian component comes out with a
+      // negligible sill and is discarded with the default tolsigma; the spherical range is bounded above by 18)
+      setDirs(g, 1, 0.);
+      t.nst = 1; t.kind = {2}; t.a = {20.}; t.ratio = {1.}; t.ang = {0.};
+      { Mat B1(1, 1); B1(0, 0) = 1.; t.B = {B1}; }
+      g.types = {ECov::GAUSSIAN, ECov::SPHERICAL}; g.tolsigma = 30.;
+      g.cons.push_back({EConsElem::RANGE, 1, 0, 0, EConsType::UPPER, 18.});
+      g.consClass = "items";
+      break;
+    case 18:
+      // control: a total sill given for the variable itself (vector form) next to another scalar value
+      name = "control-per-variable-constant-sill";
+      g.types = {ECov::NUGGET, ECov::SPHERICAL}; g.constSill = 1.; g.constSills = {2.5}; g.consClass = "constsill";
+      break;
     default:
       name = "control-plain-fit"; g.types = {ECov::NUGGET, ECov::SPHERICAL}; break;
   }
